@@ -19,7 +19,9 @@ FunsF == {"mpf_init", "mpf_init2", "mpf_clear", "mpf_init_set", "mpf_init_set_ui
           "mpf_ui_div", "mpf_sqrt", "mpf_sqrt_ui", "mpf_neg", "mpf_abs", "mpf_mul_2exp", "mpf_div_2exp", "mpf_floor", "mpf_ceil",
           "mpf_trunc", "mpf_integer_p", "mpf_cmp", "mpf_cmp_ui", "mpf_cmp_si", "mpf_cmp_d", "mpf_sgn", "mpf_get_d", "mpf_get_d_2exp",
           "mpf_get_ui", "mpf_get_si", "mpf_fits_ulong_p", "mpf_fits_slong_p", "mpf_fits_uint_p", "mpf_fits_sint_p", "mpf_fits_ushort_p",
-          "mpf_fits_sshort_p", "mpf_fits_ui_p", "mpf_fits_si_p", "mpz_set_f", "mpq_set_f", "mpf_set_default_prec", "drv_setf"}
+          "mpf_fits_sshort_p", "mpf_fits_ui_p", "mpf_fits_si_p", "mpz_set_f", "mpq_set_f", "mpf_set_default_prec", "drv_setf",
+          "mpf_set_str", "mpf_init_set_str", "mpf_get_str_n", "mpf_pow_ui", "mpf_cmp_z", "mpf_size", "mpf_eq", "mpf_reldiff",
+          "mpf_get_default_prec", "mpf_inits", "mpf_clears"}
 
 LOCAL SgnI(i) == IF i > 0 THEN 1 ELSE IF i < 0 THEN -1 ELSE 0
 LOCAL Bool(r, c) == (r # 0) = c
@@ -95,6 +97,87 @@ SigF(f, A) == CASE f \in {"mpf_div"} -> DyIsZero(Dy(A[3]))
 
 RangeOK(z, lo, hi) == ZLe(lo, z) /\ ZLe(z, hi)
 
+(* ---- text (C13: mpf_set_str within the accuracy bound, mpf_get_str within one unit of the last requested digit) ---- *)
+LOCAL Ch(s, i) == SubSeq(s, i, i)
+LOCAL Rest(s, i) == SubSeq(s, i, Len(s))
+LOCAL AlphaL == "0123456789abcdefghijklmnopqrstuvwxyz"
+LOCAL AlphaU == "0123456789ABCDEFGHIJKLMNOPQRSTUVWXYZ"
+LOCAL Alpha62F == "0123456789ABCDEFGHIJKLMNOPQRSTUVWXYZabcdefghijklmnopqrstuvwxyz"
+RECURSIVE LastExpMark(_, _, _)
+LastExpMark(s, ab, i) ==      \* position of the last exponent marker at index > 1 ('@'; 'e'/'E' only when they are not digits), 0 if none
+   IF i <= 1 THEN 0
+   ELSE IF Ch(s, i) = "@" \/ (ab <= 10 /\ Ch(s, i) \in {"e", "E"}) THEN i ELSE LastExpMark(s, ab, i - 1)
+RECURSIVE FirstCh(_, _, _)
+FirstCh(s, c, i) == IF i > Len(s) THEN 0 ELSE IF Ch(s, i) = c THEN i ELSE FirstCh(s, c, i + 1)
+(* The float grammar of the manual: optional leading white space, optional '-', digits of the base with at most one
+   point and at least one digit, optionally an exponent marker, an optional sign and exponent digits (decimal for a
+   positive base, in the base itself for a negative one).  White space elsewhere, and text after the exponent, are
+   not fixed by the manual: open.  Result [ok, open, num, den]: the value is num/den. *)
+ParseFlt(str, base) ==
+   LET ab == IF base < 0 THEN -base ELSE IF base = 0 THEN 10 ELSE base
+       eb == IF base <= 0 THEN 10 ELSE base            \* the code: exp_base = base, or 10 when base <= 0
+       s1 == StrStripWS(str)
+       neg == Len(s1) > 0 /\ Ch(s1, 1) = "-"
+       s2 == IF neg THEN Rest(s1, 2) ELSE s1
+       ke == LastExpMark(s2, ab, Len(s2))
+       mant == IF ke = 0 THEN s2 ELSE SubSeq(s2, 1, ke - 1)
+       ex0 == IF ke = 0 THEN "" ELSE Rest(s2, ke + 1)
+       eneg == Len(ex0) > 0 /\ Ch(ex0, 1) = "-"
+       ex1 == IF Len(ex0) > 0 /\ Ch(ex0, 1) \in {"-", "+"} THEN Rest(ex0, 2) ELSE ex0
+       kp == FirstCh(mant, ".", 1)
+       ip == IF kp = 0 THEN mant ELSE SubSeq(mant, 1, kp - 1)
+       fp == IF kp = 0 THEN "" ELSE Rest(mant, kp + 1)
+       al == IF ab <= 36 THEN AlphaL ELSE Alpha62F
+       ds == IF ab <= 36 THEN StrLower(ip \o fp) ELSE ip \o fp
+       eal == IF eb <= 36 THEN AlphaL ELSE Alpha62F
+       eds == IF eb <= 36 THEN StrLower(ex1) ELSE ex1
+       hasWS == \E i \in 1..Len(s2) : Ch(s2, i) \in {" ", "\t", "\n", "\r", "\f"}
+       digitsOK == Len(ds) > 0 /\ StrFirstBad(ds, ab, al) >= Len(ds)
+       expOK == ke = 0 \/ (Len(eds) > 0 /\ StrFirstBad(eds, eb, eal) >= Len(eds))
+   IN  IF hasWS \/ (digitsOK /\ ke # 0 /\ Len(eds) > 0 /\ ~expOK) THEN [ok |-> FALSE, open |-> TRUE, num |-> "0", den |-> "1"]
+       ELSE IF ~digitsOK \/ ~expOK THEN [ok |-> FALSE, open |-> FALSE, num |-> "0", den |-> "1"]
+       ELSE LET M == ZFromDigits(ds, ab, al)
+                E0 == IF ke = 0 THEN 0 ELSE ZToInt(ZFromDigits(eds, eb, eal))
+                E == (IF eneg THEN -E0 ELSE E0) - Len(fp)
+                Ms == IF neg THEN ZNeg(M) ELSE M
+            IN  IF E >= 0 THEN [ok |-> TRUE, open |-> FALSE, num |-> ZMul(Ms, ZPow(ZFromInt(ab), E)), den |-> "1"]
+                ELSE [ok |-> TRUE, open |-> FALSE, num |-> Ms, den |-> ZPow(ZFromInt(ab), -E)]
+(* "operands fit" for a string: the digit string as an integer and the power of the base it is scaled by *)
+SetStrOK(R, pr, p) == AccurateQuot(R, DyZ(pr.num), DyZ(pr.den), p, Fits(DyZ(pr.num), p) /\ Fits(DyZ(pr.den), p))
+
+(* mpf_get_str(NULL, &x, base, n, op) = text: digits d1..dk denote 0.d1..dk * base^x *)
+GetStrOK(text, x, base, n, F) ==
+   LET X == Dy(F)
+       ab == IF base < 0 THEN -base ELSE base
+       al == IF base < 0 THEN AlphaU ELSE IF base <= 36 THEN AlphaL ELSE Alpha62F
+       neg == Len(text) > 0 /\ Ch(text, 1) = "-"
+       ds == IF neg THEN Rest(text, 2) ELSE text
+       k == Len(ds)
+   IN  IF DyIsZero(X) THEN text = "" /\ x = "0"
+       ELSE /\ k >= 1 /\ (n > 0 => k <= n) /\ neg = ZIsNeg(X[1])
+            /\ StrFirstBad(ds, ab, al) >= k
+            /\ Ch(ds, 1) # "0" /\ Ch(ds, k) # "0"              \* a fraction 0.d1..: leading digit non-zero; trailing zeros are not returned
+            /\ LET D == ZFromDigits(ds, ab, al)
+                    E == ZToInt(x)
+                    nn == IF n = 0 THEN k ELSE n                      \* unit of the last requested digit: base^(E - nn)
+                    s == MaxI(0, MaxI(k - E, nn - E))                 \* scale by base^s * 2^t so that everything is an integer
+                    t == MaxI(0, -X[2])
+                    B == ZFromInt(ab)
+                    lhs == ZAbs(ZSub(ZShl(ZMul(D, ZPow(B, E - k + s)), t), ZMul(ZShl(ZAbs(X[1]), X[2] + t), ZPow(B, s))))
+                    rhs == ZShl(ZPow(B, E - nn + s), t)
+                IN  /\ ZLt(lhs, rhs)
+                    \* n = 0: the maximum accurate number of digits, i.e. at least the accuracy every other result has
+                    /\ (n = 0 => ZLt(ZShl(lhs, PrecBits(F) - 2), ZMul(ZShl(ZAbs(X[1]), X[2] + t), ZPow(B, s))))
+
+RECURSIVE DyPow(_, _)
+DyPow(a, e) == IF e = 0 THEN <<"1", 0>> ELSE IF e % 2 = 1 THEN DyMul(a, DyPow(a, e - 1)) ELSE LET h == DyPow(a, e \div 2) IN DyMul(h, h)
+IBitLen(i) == ZBitLen(ZFromInt(i))
+(* first n bits (from the leading one bit) of two non-zero values of the same sign *)
+SameTopBits(U, V, n) ==
+   LET topU == ZBitLen(U[1]) + U[2]  topV == ZBitLen(V[1]) + V[2] IN
+   /\ topU = topV
+   /\ DyFloor(DyShl(DyAbs(U), n - topU)) = DyFloor(DyShl(DyAbs(V), n - topV))
+
 PostF(f, A, O, r, x, gl) ==
    LET R == IF f \in {"mpz_set_f", "mpq_set_f"} THEN <<"0", 0>> ELSE Dy(O[1])
        p == IF f \in {"mpz_set_f", "mpq_set_f"} THEN 0 ELSE PrecBits(O[1])
@@ -165,6 +248,31 @@ PostF(f, A, O, r, x, gl) ==
      [] f = "mpf_fits_sint_p" -> Bool(r, RangeOK(DyTrunc(Dy(A[1])), "-80000000", "7fffffff"))
      [] f = "mpf_fits_ushort_p" -> Bool(r, RangeOK(DyTrunc(Dy(A[1])), "0", "ffff"))
      [] f = "mpf_fits_sshort_p" -> Bool(r, RangeOK(DyTrunc(Dy(A[1])), "-8000", "7fff"))
+     [] f = "mpf_set_str" -> LET pr == ParseFlt(A[2], A[3]) IN
+                             IF pr.open THEN TRUE ELSE IF pr.ok THEN r = 0 /\ SetStrOK(R, pr, p) ELSE r = -1
+     [] f = "mpf_init_set_str" -> LET pr == ParseFlt(A[2], A[3]) IN
+                                  /\ O[1].prec = gl.defprec
+                                  /\ IF pr.open THEN TRUE ELSE IF pr.ok THEN r = 0 /\ SetStrOK(R, pr, p) ELSE r = -1
+     [] f = "mpf_get_str_n" -> GetStrOK(r.s, x, A[1], I(A[2]), A[3])
+     [] f = "mpf_pow_ui" ->      \* a product of e factors, each within the bound of mpf_mul: the bound composed e times; exact when everything fits
+           LET e == I(A[3])  X == DyPow(Dy(A[2]), e) IN
+           /\ Close(R, X, p - IBitLen(e) - 2)
+           /\ (Fits(Dy(A[2]), p) /\ DySigBits(X) <= p) => DyEq(R, X)
+     [] f = "mpf_cmp_z" -> SgnI(r) = DyCmp(Dy(A[1]), DyZ(A[2]))
+     [] f = "mpf_size" -> r = ZFromInt(AbsI(A[1].sz))
+     [] f = "mpf_get_default_prec" -> r = ZFromInt(64 * gl.defprec - 64)
+     [] f = "mpf_eq" ->          \* n >= 1 bits
+           LET U == Dy(A[1])  V == Dy(A[2]) IN
+           IF DyIsZero(U) \/ DyIsZero(V) THEN Bool(r, DyIsZero(U) /\ DyIsZero(V))
+           ELSE IF ZIsNeg(U[1]) # ZIsNeg(V[1]) THEN r = 0
+           ELSE Bool(r, SameTopBits(U, V, I(A[3])))
+     [] f = "mpf_reldiff" ->     \* |op1 - op2| / op1 : a difference then a quotient, each within the bound (composed: 2^(4-p)); op1 = 0 is not defined by the manual
+           LET a == Dy(A[2])  b == Dy(A[3])  d == DyAbs(DySub(a, b)) IN
+           IF DyIsZero(a) THEN TRUE
+           ELSE IF DyIsZero(d) THEN DyIsZero(R)
+           ELSE DyCmp(DyShl(DyAbs(DySub(DyMul(R, a), d)), p - 4), d) < 0
+     [] f = "mpf_inits" -> \A k \in 1..3 : DyIsZero(Dy(O[k])) /\ O[k].prec = gl.defprec
+     [] f = "mpf_clears" -> TRUE
      [] f = "mpz_set_f" -> O[1].v = DyTrunc(Dy(A[2]))
      [] f = "mpq_set_f" ->       \* exact conversion, canonical
            LET X == Dy(A[2]) IN
